@@ -6,7 +6,9 @@ import Agd.Tie.C03
 Property theorems only.  The model is `Agd/Model/Device.lean` (`find` = `devicefinder.Default.Find`,
 `continues` = `ratelimitmw.handleDeviceResult`, `deviceDataOf` = `agd.RequestInfo.DeviceData`); the
 specification vocabulary (`Carried`, `Maps`, `ByAddress`, `AuthMet`, `DB.WF`, `Owns`, `OwnAddress`,
-`SameChannels`) and the inversion lemmas live in `Agd/Lemmas/Device.lean`.
+`SameChannels`, and the parser-free literal reading `Names` / `Presents`) and the inversion lemmas live
+in `Agd/Lemmas/Device.lean`.  `findIn` adds `dnssvc.newDeviceFinder` (profiles enabled?) in front of
+`find`; `addRequestInfo`/`parseBasicAuth` model what the DoH server derives from an HTTP request.
 
 All theorems hold for every server configuration, every request and every profile database
 (five arbitrary lookup functions, arbitrary password checks).
@@ -127,6 +129,130 @@ theorem channel_isolation (s : Srv) (db : DB) (a b : Req) (h : SameChannels s.pr
   · exact find_congr (by simp [deviceData, hp, Proto.isStdEncrypted, deviceDataFromSrvReqInfo,
       deviceDataFromSNIStep, h]) (findDevice_indep (by simp [hp])) (authenticate_notDoH (by simp [hp]))
 
+/-- **recognised_presents_own_identifier.**  The first clause of the property against a *literal*
+specification (`Presents`, `Names`: no parser of the model occurs in it).  Over a well-formed
+database, a recognised request literally contains the recognised device's identifier in a channel of
+its transport: the basic-auth user equals the device ID; or a `/`-separated segment of the URL path
+/ the single, dot-free label in front of a configured device domain in the TLS server name (domain
+compared without letter case) is the device ID up to letter case or `<type>-<profile>-<human id>`
+of that profile and device; or the CPE-ID option's payload equals the device ID; or the address is
+the device's own.  In particular nested labels, other domains and foreign channels never lead to
+recognition. -/
+theorem recognised_presents_own_identifier (s : Srv) (db : DB) (rq : Req) (p : Profile) (d : Device)
+    (hwf : db.WF) (h : find s db rq = .ok p d) : Presents s rq p d := by
+  rcases (recognised_device_is_own s db rq p d hwf h).2 with ⟨dd, hc, ho⟩ | ha
+  · exact carried_presents hc ho
+  · exact .address ha
+
+/-- **doh_userinfo_decision.**  Reference decision table for DoH requests with userinfo: the
+result is a function of the basic-auth user, the password and the database entry of that device ID
+alone (URL path, server name, EDNS and addresses are irrelevant), and a request is recognised
+exactly when the user is a valid device ID that the database maps to a live profile and either the
+device has authentication disabled or the password is present and passes the check. -/
+theorem doh_userinfo_decision (s : Srv) (db : DB) (rq : Req) (u : Str) (pw : Option Str)
+    (hdoh : s.proto = .doh) (hui : rq.userinfo = some (u, pw)) :
+    find s db rq =
+      if !validDeviceID u then .error .basicAuth
+      else match db.byDeviceID u with
+        | .found p d =>
+          if p.deleted then .none
+          else if !d.auth.enabled then .ok p d
+          else match pw with
+            | none => .authFail .noPassword
+            | some x => if d.auth.check x then .ok p d else .authFail .failed
+        | .devNotFound => .none
+        | .profNotFound => .none
+        | .error => .error .db := by
+  by_cases hv : validDeviceID u = true
+  · cases hdb : db.byDeviceID u with
+    | found p d =>
+      by_cases hdel : p.deleted = true
+      · simp [find, supportsDeviceID, deviceData, Proto.isStdEncrypted, deviceDataFromSrvReqInfo,
+          deviceDataForDoH, hdoh, hui, hv, findDevice, deviceFromDB, hdb, newDeviceResult, hdel]
+      · by_cases hen : d.auth.enabled = true
+        · cases pw with
+          | none =>
+            simp [find, supportsDeviceID, deviceData, Proto.isStdEncrypted, deviceDataFromSrvReqInfo,
+              deviceDataForDoH, hdoh, hui, hv, findDevice, deviceFromDB, hdb, newDeviceResult, hdel,
+              authenticatedResult, authenticate, hen]
+          | some x =>
+            by_cases hck : d.auth.check x = true <;>
+            simp [find, supportsDeviceID, deviceData, Proto.isStdEncrypted, deviceDataFromSrvReqInfo,
+              deviceDataForDoH, hdoh, hui, hv, findDevice, deviceFromDB, hdb, newDeviceResult, hdel,
+              authenticatedResult, authenticate, hen, hck]
+        · simp [find, supportsDeviceID, deviceData, Proto.isStdEncrypted, deviceDataFromSrvReqInfo,
+            deviceDataForDoH, hdoh, hui, hv, findDevice, deviceFromDB, hdb, newDeviceResult, hdel,
+            authenticatedResult, authenticate, hen]
+    | devNotFound | profNotFound | error =>
+      simp [find, supportsDeviceID, deviceData, Proto.isStdEncrypted, deviceDataFromSrvReqInfo,
+        deviceDataForDoH, hdoh, hui, hv, findDevice, deviceFromDB, hdb, newDeviceResult]
+  · simp [find, supportsDeviceID, deviceData, Proto.isStdEncrypted, deviceDataFromSrvReqInfo,
+      deviceDataForDoH, hdoh, hui, hv]
+
+/-- **profiles_disabled_anonymous.**  On a server group with profiles disabled
+(`dnssvc.newDeviceFinder` installs the empty finder) nothing is ever recognised; with profiles
+enabled the result is `Find`'s, so every theorem above applies to `findIn true`. -/
+theorem profiles_disabled_anonymous (s : Srv) (db : DB) (rq : Req) :
+    findIn false s db rq = .none ∧ continues (findIn false s db rq) = true ∧
+      deviceDataOf (findIn false s db rq) = none ∧ findIn true s db rq = find s db rq := by
+  simp [findIn, continues, deviceDataOf]
+
+/-- Recognition through the configured finder implies profiles are enabled and `Find` recognised. -/
+theorem findIn_ok (en : Bool) (s : Srv) (db : DB) (rq : Req) (p : Profile) (d : Device)
+    (h : findIn en s db rq = .ok p d) : en = true ∧ find s db rq = .ok p d := by
+  cases en <;> simp [findIn] at h ⊢
+  exact h
+
+/-! ## From the HTTP request (the DoH server's `addRequestInfo`) -/
+
+/-- **http_userinfo_has_password.**  The userinfo the DoH server hands to the finder exists iff the
+`Authorization` header parses as basic credentials, and then it always carries a password (possibly
+empty): "user without password" cannot arise from an HTTP request. -/
+theorem http_userinfo_has_password (hr : HttpReq) (rq : Req) (u : Str) (pw : Option Str)
+    (hui : (addRequestInfo hr rq).userinfo = some (u, pw)) :
+    ∃ x, pw = some x ∧ parseBasicAuth hr.auth = some (u, x) := by
+  simp only [addRequestInfo] at hui
+  cases hp : parseBasicAuth hr.auth with
+  | none => simp [hp] at hui
+  | some up =>
+    obtain ⟨u', x⟩ := up
+    simp [hp] at hui
+    obtain ⟨rfl, rfl⟩ := hui
+    exact ⟨x, rfl, rfl⟩
+
+/-- **http_bad_password_is_anonymous.**  Starting from the header: basic credentials naming a device
+of a live profile with authentication enabled and a password — wrong or *empty* — that fails the
+device's check give an authentication failure, whatever URL path, TLS server name, EDNS options and
+addresses say; the request continues and is served without any profile. -/
+theorem http_bad_password_is_anonymous (s : Srv) (db : DB) (hr : HttpReq) (rq : Req) (p : Profile)
+    (d : Device) (u x : Str) (hdoh : s.proto = .doh) (hauth : parseBasicAuth hr.auth = some (u, x))
+    (hvalid : validDeviceID u = true) (hdb : db.byDeviceID u = .found p d) (hlive : p.deleted = false)
+    (hen : d.auth.enabled = true) (hbad : d.auth.check x = false) :
+    find s db (addRequestInfo hr rq) = .authFail .failed ∧
+      continues (find s db (addRequestInfo hr rq)) = true ∧
+      deviceDataOf (find s db (addRequestInfo hr rq)) = none := by
+  have hui : (addRequestInfo hr rq).userinfo = some (u, some x) := by simp [addRequestInfo, hauth]
+  have := doh_userinfo_decision s db (addRequestInfo hr rq) u (some x) hdoh hui
+  simp [hvalid, hdb, hlive, hen, hbad] at this
+  simp [this, continues, deviceDataOf]
+
+/-- **http_doh_only_needs_basic_auth.**  A DoH-only device is recognised from an HTTP request only
+if the `Authorization` header parses as basic credentials whose password passes the device's
+check; a device with authentication enabled is never recognised from a request whose header
+carries a password that fails it. -/
+theorem http_doh_only_needs_basic_auth (s : Srv) (db : DB) (hr : HttpReq) (rq : Req) (p : Profile)
+    (d : Device) (hen : d.auth.enabled = true) (h : find s db (addRequestInfo hr rq) = .ok p d) :
+    (d.auth.dohOnly = true → ∃ u x, parseBasicAuth hr.auth = some (u, x) ∧ d.auth.check x = true) ∧
+      (s.proto = .doh → ∀ u x, parseBasicAuth hr.auth = some (u, x) → d.auth.check x = true) := by
+  refine ⟨fun hdo => ?_, fun hdoh u x hp => ?_⟩
+  · obtain ⟨_, u, pw, hui, hck⟩ := doh_only_never_elsewhere s db _ p d hen hdo h
+    obtain ⟨x, hx, hp⟩ := http_userinfo_has_password hr rq u (some pw) hui
+    injection hx with hx; subst hx
+    exact ⟨u, pw, hp, hck⟩
+  · have hui : (addRequestInfo hr rq).userinfo = some (u, some x) := by simp [addRequestInfo, hp]
+    obtain ⟨pass, h1, h2⟩ := bad_password_never_recognised s db _ p d u (some x) hdoh hui hen h
+    injection h1 with h1; subst h1; exact h2
+
 /-- **only_ok_exposes_profile.**  The rest of the pipeline sees a profile exactly for an OK result;
 authentication failures continue as anonymous requests; errors and unknown dedicated addresses stop
 the request. -/
@@ -205,6 +331,33 @@ example : (exDB true true).WF where
 example : SameChannels .dot (exReq none "/dns-query/dev1" "a.d.example")
     (exReq (some (['z'], none)) "" "a.d.example") := rfl
 
+/-- `Presents` is satisfiable in every non-address form and not trivially true: the nested label
+`x.dev1` in front of the device domain is not a prefix-label of the name (it contains a dot). -/
+example : Presents (exSrv .dot) (exReq none "" "Dev1.D.example") exProf (exDev true false) :=
+  .sni "Dev1".toList "d.example".toList rfl (by decide) (by decide) (by decide) (by decide) (by decide)
+    (Or.inl (by decide))
+
+example : Presents (exSrv .doh) (exReq none "/dns-query/DEV1" "") exProf (exDev false false) :=
+  .dohPath "DEV1".toList rfl rfl (by decide) (Or.inl (by decide))
+
+/-- The decision table's hypotheses are satisfiable (first conjunct of the refusal example above),
+and the profiles-disabled finder refuses the request that `find` recognises. -/
+example : isOK (findIn false (exSrv .dns) (exDB false false) (exReq none "" "")) = false ∧
+    isOK (findIn true (exSrv .dns) (exDB false false) (exReq none "" "")) = true := by decide
+
+/-- The HTTP-level hypotheses are satisfiable: `Basic ZGV2MTo=` is `dev1:` (empty password),
+`Basic ZGV2MTp4` is `dev1:x`; both are refused for the auth-enabled `dev1`; `Basic ZGV2MTpwdw==`
+(`dev1:pw`) is recognised even for the DoH-only device; a `Bearer` header is no userinfo. -/
+example : parseBasicAuth "Basic ZGV2MTo=".toList = some ("dev1".toList, []) ∧
+    parseBasicAuth "bAsIc ZGV2MTp4".toList = some ("dev1".toList, ['x']) ∧
+    parseBasicAuth "Bearer ZGV2MTp4".toList = none ∧ parseBasicAuth "Basic ZGV2MQ==".toList = none := by decide
+
+example : isAuthFail (find (exSrv .doh) (exDB true false)
+      (addRequestInfo ⟨some [], "Basic ZGV2MTo=".toList, "/dns-query/dev1".toList⟩ (exReq none "" ""))) = true ∧
+    isOK (find (exSrv .doh) (exDB true true)
+      (addRequestInfo ⟨some [], "Basic ZGV2MTpwdw==".toList, "/dns-query".toList⟩ (exReq none "" ""))) = true := by
+  decide
+
 /-- DNSCrypt: the same request that is recognised on plain DNS is anonymous. -/
 example : isOK (find (exSrv .dnscrypt) (exDB false false) (exReq none "" "")) = false := by decide
 
@@ -220,3 +373,10 @@ end Agd.Device
 #print axioms Agd.Device.dnscrypt_anonymous
 #print axioms Agd.Device.channel_isolation
 #print axioms Agd.Device.only_ok_exposes_profile
+#print axioms Agd.Device.recognised_presents_own_identifier
+#print axioms Agd.Device.doh_userinfo_decision
+#print axioms Agd.Device.profiles_disabled_anonymous
+#print axioms Agd.Device.findIn_ok
+#print axioms Agd.Device.http_userinfo_has_password
+#print axioms Agd.Device.http_bad_password_is_anonymous
+#print axioms Agd.Device.http_doh_only_needs_basic_auth
